@@ -21,7 +21,7 @@ RUN_TIMEOUT = 120
 REPLAY_TRIES = 24
 SELFTEST_PAIRS = {"quick": 16, "thorough": 40}
 PROBES = ["accepted_after_fault", "fault_free_result", "result_with_images", "result_with_tables", "result_with_units", "placeholder_image_with_error",
-          "doc_properties_compared", "path_none", "path_existing_file", "path_member_form", "non_bmp_text", "entry_attachment", "entry_archive", "earlier_documents_in_process", "path_context_changed"]
+          "doc_properties_compared", "path_none", "path_existing_file", "path_member_form", "non_bmp_text", "entry_attachment", "entry_archive", "earlier_documents_in_process", "same_bytes_under_another_path", "path_context_changed"]
 RULE = ("the fault space of C01 restricted to runs that yield >= 1 result (damaged-but-accepted documents) plus a fault-free population; for every "
         "result the full accessor sweep over result / units / images / tables / metadata is applied; distinct non-trivial = (result type, entry, "
         "first fault kind, shape class (units/images/tables present), function-set signature)")
@@ -64,6 +64,13 @@ def gen_case(rng: random.Random, tier: str) -> dict:
         c["recheck"] = rng.choice(["chdir", "create_file", "both", "exists_in_both_cwds", "exists_in_both_cwds"])  # same path string, changed file-system context
         c["entry"] = "direct"
         c["path_kind"] = rng.choice(["relative", "relative", "unicode"])
+    elif rng.random() < 0.25:
+        # the same bytes extracted a second time under another path argument (or none): the second report follows its own
+        # argument and the first result, still held by the caller, keeps saying what it said
+        c["recheck"] = "other_path"
+        c["entry"] = "direct"
+        c["path_kind"] = rng.choice(["relative", "absolute_missing", "unicode"])
+        c["path_kind2"] = rng.choice(["none", "none", "absolute_missing", "member_form"])
     return c
 
 
@@ -375,7 +382,20 @@ def run_case(case: dict) -> dict:
             own = iosim.ext_of(case["doc"])
             if entry in ("direct", "read_file") and case["route"].lower() == own and ri == 0 and not case["ops"]:
                 compare_props(res, data, own, viol, probes, where)
-        if case.get("recheck") and entry == "direct" and path and out.exc is None:
+        if case.get("recheck") == "other_path" and entry == "direct" and path and out.exc is None:
+            case2 = dict(case, path_kind=case["path_kind2"], stem=case["stem"] + "-second")
+            path2 = iosim.path_arg(case2, f"{case2['stem']}.{case['route']}")
+            out2 = iosim.execute(case2, sbx)
+            probes["same_bytes_under_another_path"] = 1
+            arch = case["route"].lower() in ARCHIVE_ROUTES
+            for ri, res in enumerate(out2.results[:3]):
+                sweep(res, SKIP_PATH if arch else path2, viol, probes, f"{case['doc']} extracted again with path {path2!r} result[{ri}]")
+            n0 = len(viol)
+            for ri, res in enumerate(out.results[:3]):
+                sweep(res, SKIP_PATH if arch else path, viol, probes, f"{case['doc']} FIRST result[{ri}] (path {path!r}) looked at again after a second extraction with path {path2!r}")
+            for v in viol[n0:]:
+                v["sig"] += "|earlier_result_after_later_extraction"
+        elif case.get("recheck") and entry == "direct" and path and out.exc is None:
             # the same path string under a changed context: other cwd and/or the path now names an existing file
             if case["recheck"] in ("chdir", "both", "exists_in_both_cwds"):
                 os.chdir(os.path.join(sbx, "cwd2"))
